@@ -316,6 +316,12 @@ pub mod sync {
         }
     }
 
+    /// Name one mutex: it belongs to the infoset `index` of `kind`
+    pub(crate) fn label_one<T>(mutex: &Mutex<T>, kind: u8, index: usize) {
+        mutex.kind.store(kind as usize, Ordering::SeqCst);
+        mutex.index.store(index, Ordering::SeqCst);
+    }
+
     /// `std::sync::Mutex` with a log
     pub struct Mutex<T> {
         inner: std::sync::Mutex<T>,
